@@ -125,4 +125,63 @@ def removeKey (S : State) (fp : Int) : State × Bool :=
 
 def numberOfKeys (S : State) : Nat := S.keys.length
 
+/-- one step of a key-generation history as the common key sees it -/
+inductive KeyOp where
+  | accept (fp key : Int)   -- contribution whose proof of knowledge was accepted
+  | refuse                  -- contribution that was refused (bad proof, key outside the group, …)
+  | remove (fp : Int)       -- removal request for the key with this fingerprint
+  deriving Repr, DecidableEq
+
+def applyKeyOp (S : State) : KeyOp → State × Bool
+  | .accept fp key => (updateKeyAccept S fp key, true)
+  | .refuse => (S, false)
+  | .remove fp => removeKey S fp
+
+/-- process a history; returns the final state and the return value of every call -/
+def runKeyOps (S : State) (ops : List KeyOp) : State × List Bool :=
+  ops.foldl (fun (acc : State × List Bool) op =>
+    let (S', r) := applyKeyOp acc.1 op
+    (S', acc.2 ++ [r])) (S, [])
+
+/-! ### a whole game of one card (the scenario C01 quantifies over) -/
+
+/-- states of all players after key generation: player `j` holds secret `xs[j]`, and has
+    processed everybody's (verified) contribution -/
+def players (G : Group) (xs : List Int) : Except Err (List State) := do
+  let S0 ← mkState G
+  let sts ← xs.mapM (fun x => generateKey S0 x)
+  let h := (sts.map (·.hi)).foldl (fun acc hi => acc * hi % G.p) 1
+  sts.mapM (fun S => finalize { S with h := h })
+
+structure OpenResult where
+  h : Int
+  card : Card
+  m : Int
+  type : Nat
+  deriving Repr
+
+/-- Player 0 creates a card of type `T` (open, or private with the first exponent of `rs`);
+    it is then re-masked with the remaining exponents (`taps`: timing protection flag per step);
+    player `opener` opens it with the shares of the players in `present` (its own share is
+    always used). -/
+def openRun (G : Group) (xs : List Int) (w T : Nat) (priv : Bool) (rs : List Int) (taps : List Bool)
+    (present : List Nat) (opener : Nat) : Except Err OpenResult := do
+  let sts ← players G xs
+  let S0 ← match sts[0]? with | some s => .ok s | none => .error .oob
+  let (c0, rs', taps') ← if priv then
+      match rs with
+      | r0 :: rest => do let c ← createPrivateCard S0 T r0; pure (c, rest, taps.drop 1)
+      | [] => .error .oob
+    else do let c ← createOpenCard S0 T; pure (c, rs, taps)
+  let c ← (rs'.zip taps').foldlM (fun c (r, tap) => remask S0 c r tap) c0
+  let So ← match sts[opener]? with | some s => .ok s | none => .error .oob
+  let So ← verifyInitialize So c.c1
+  let So ← present.foldlM (fun S j => do
+      let Sj ← match sts[j]? with | some s => .ok s | none => .error .oob
+      let dj ← decryptionShare Sj c.c1
+      pure (verifyUpdateAccept S dj)) So
+  let m ← verifyFinalize So c.c2
+  let t ← typeOfCard So w c.c2
+  pure ⟨So.h, c, m, t⟩
+
 end Tmcg.Vtmf
